@@ -143,9 +143,12 @@ def execute(sc, sim):
         for task in tasks:
             ops.append(["cli", ["treeanalysis", "/sim/w/%s%s" % (name, EXT[fmt]), task,
                                 "--src-format", fmt, "--src-opts", "quiet"] + SRCOPT(sc)])
-        obs = sim.run({"files": files, "io_seed": sc["io_seed"],
-                       "sessions": [{"id": "c", "ops": ops, "on_error": "continue"}]})
+        spec = {"files": files, "io_seed": sc["io_seed"],
+                "sessions": [{"id": "c", "ops": ops, "on_error": "continue"}]}
+        obs = sim.run(spec)
         st.add_obs(obs)
+        if name == "AB" and sc["io_seed"] % 40 == 0:
+            cm.real_crosscheck(sim, st, spec, obs, stdout=True)
         recs = obs["sessions"]["c"]
         for task, rec in zip(tasks, recs[npre:]):
             if "exc" in rec or rec["ok"].get("exit") != 0:
